@@ -164,7 +164,11 @@ class Driver:
             if fault == "ray_len":
                 kw["ray_paths"] = paths[:-1] if self.n_ant > 1 else paths + [[]]
             elif fault == "pol_len":
-                kw["polarizations"] = [p + [np.zeros(3)] for p in pols]
+                if self.n_ant == 2 and len(pols[0]) != len(pols[1]):
+                    # the two antennas' lists swapped: the totals still agree, the per-antenna lengths do not
+                    kw["polarizations"] = [pols[1], pols[0]]
+                else:
+                    kw["polarizations"] = [p + [np.zeros(3)] for p in pols]
             elif fault == "no_rays":
                 kw["ray_paths"] = None
             elif fault == "no_trigger":
